@@ -1,13 +1,15 @@
 import RpmVerif.Driver.Common
 import RpmVerif.Model.Header
 import RpmVerif.Spec.Canon
+import RpmVerif.Model.Builder
+import RpmVerif.Driver.Hash
 /-! Driver for C16. Ops `offsets BYTES`, `offbig DL`. Observation
 `ok <lead> <sig> <hdr> <payload> wlen=<n> clen=<n> i1=<intro at sig> i2=<intro at hdr>` | `err`.
 Spec: boundaries recomputed from the raw input bytes (`Canon.hdrLen`), independently of the parser. -/
 namespace RpmVerif.Driver.C16
 open RpmVerif.Hdr RpmVerif.Driver
 
-def ops : List String := ["offsets", "offbig"]
+def ops : List String := ["offsets", "offbig", "offv"]
 
 def introAt (w : Bytes) (pos : Nat) : Bool := (w.drop pos).take 4 == RpmVerif.Gen.HEADER_MAGIC ++ [1]
 
@@ -33,6 +35,27 @@ def handle (op : String) (args : List String) (impl : String) : String :=
         let v := if impl.startsWith "ok" then verdictOf (impl == want && 96 < h && h < pay) else "dontcare"
         answer m v s!"sig{min p.md.signature.entries.length 3}-mod{p.md.signature.dataSize % 8}-hdr{min p.md.header.entries.length 3}"
       | o => answer (if o.isPanic then "panic" else "err") (if impl.startsWith "ok" then "fails:accepted-what-model-rejects" else "dontcare") "rejected"
+  | "offv", [variant, hb] =>
+    -- a value changed in memory after parsing: the spec is the theorem's statement, evaluated on the
+    -- model's written bytes (segments of the written package), the model predicts offsets and lengths
+    match bytesOfHex hb with
+    | none => badReq "hex"
+    | some bs =>
+      match parsePackage bs with
+      | .ok p0 =>
+        let sig : Header := match variant with
+          | "clearsig" => RpmVerif.Bld.signatureHeader [] (some ((hexOfBytes (Hash.sha256L (writeHeader p0.md.header))).toUTF8.toList))
+          | _ => ⟨0, 0, [], []⟩
+        let p : Package := ⟨⟨p0.md.lead, sig, p0.md.header⟩, p0.content⟩
+        let w := writePackage p
+        let o := offsets p.md
+        let m := obs o w.length p.content.length (introAt w o.sig) (introAt w o.hdr)
+        let h := 96 + (writeSignature sig).length
+        let pay := h + (writeHeader p.md.header).length
+        let want := obs ⟨0, 96, h, pay⟩ (pay + p.content.length) p.content.length true true
+        let v := if impl.startsWith "ok" then verdictOf (impl == want) else "fails:variant-rejected"
+        answer m v s!"variant-{variant}"
+      | _ => answer "err" (if impl == "err" then "dontcare" else "fails:accepted-what-model-rejects") "rejected"
   | "offbig", [d] =>
     match d.toNat? with
     | some dl =>
